@@ -213,3 +213,27 @@ class Gen:
                         ir.cfg.add(g.Edge(a, b, g.Edge.Label(
                             label.type, label.conditional, not label.direct)))
         return ir
+
+
+def is_rich(g, ir):
+    """does the IR have every node kind and every reference kind (so that
+    each (reference role, wrong kind) fault can be injected into its file)?"""
+    mods = list(ir.modules)
+    has_expr = any(x.symbolic_expressions for x in ir.byte_intervals)
+    return bool(
+        any(m.proxies for m in mods) and list(ir.code_blocks)
+        and list(ir.data_blocks) and list(ir.symbols)
+        and any(s.referent is not None for s in ir.symbols)
+        and any(m.entry_point is not None for m in mods)
+        and has_expr and len(ir.cfg) > 0)
+
+
+def build_rich(gtirb, rng, size, tries=40):
+    """an IR as `Gen.build` makes them, redrawn until it `is_rich`"""
+    ir = None
+    for _ in range(tries):
+        ir = Gen(gtirb, rng, size).build()
+        if is_rich(gtirb, ir):
+            break
+        size = min(1.5, size + 0.1)
+    return ir
